@@ -14,8 +14,9 @@ use serde_json::json;
 
 /// line range of `pub fn inverse_gamma_lr` in the current /repo/src/gamma.rs
 fn gamma_fn_range() -> Option<(String, u32, u32)> {
-    let path = concat!(env!("CARGO_MANIFEST_DIR"), "/../../repo/src/gamma.rs");
-    let text = std::fs::read_to_string("/repo/src/gamma.rs").or_else(|_| std::fs::read_to_string(path)).ok()?;
+    // the sources the harness was compiled against: $VERIF_REPO (scratch copies), else /repo
+    let repo = std::env::var("VERIF_REPO").unwrap_or_else(|_| "/repo".to_string());
+    let text = std::fs::read_to_string(format!("{}/src/gamma.rs", repo)).ok()?;
     let mut start = None;
     let mut depth: i32 = 0;
     let mut opened = false;
